@@ -107,14 +107,24 @@ CHECKS = {
         "outside": "inputs longer than the bounds other than single-byte mutations of the listed sources; the JSON parser above its scanner; gohcl decoding of error-free input (reflection); did-you-mean hints in diagnostic text (stubbed: edit distance over symbolic names forks per character pair); grapheme cluster segmentation (contract stub: some prefix of 1..n bytes); number literals whose digits are symbolic reach math/big float formatting (paths abandoned and counted)",
         "min_completed": 3,
     },
+    "C18": {
+        "groups": [
+            {"pkg": "Havoc/pkg/profile/yaotl/hclsyntax", "entries": ["H_c18_template"], "shards": 7, "flags": ["-tags", "nohint", "-init", "Havoc/pkg/profile/yaotl,golang.org/x/text/unicode/norm,github.com/zclconf/go-cty/...,math/big,github.com/agext/levenshtein"]},
+            {"pkg": "Havoc/pkg/profile/yaotl/hclsyntax", "entries": ["H_c18_access"], "shards": 6, "flags": ["-tags", "nohint", "-init", "Havoc/pkg/profile/yaotl,golang.org/x/text/unicode/norm,github.com/zclconf/go-cty/...,math/big,github.com/agext/levenshtein"]},
+            {"pkg": "Havoc/pkg/profile/yaotl/hclsyntax", "entries": ["H_c18_binary"], "shards": 4, "flags": ["-tags", "nohint", "-init", "Havoc/pkg/profile/yaotl,golang.org/x/text/unicode/norm,github.com/zclconf/go-cty/...,math/big,github.com/agext/levenshtein"]},
+        ],
+        "bounds": "binary operators: x S1 y S2 z where each operator slot is two arbitrary bytes (all 13 binary operators, either blank placement for one-character operators) over four operand environments (numbers 12,4,2; 7,7,3; number/bool/number; three booleans), as written and with redundant parentheses around the sub-expression that binds first: value prescribed by the six precedence levels, left associativity and the typing rules, or an error diagnostic for ill-typed / division by zero. Access: one arbitrary digit as a source byte in tuple index, attribute name, string key, conditional, for-expression filter and index into a parenthesised splat result. Templates: arbitrary literal characters and an arbitrary two-character ASCII string variable in interpolation, strip markers, if/else, if without else, for directive, heredoc and indented heredoc.",
+        "outside": "expression trees beyond the listed shapes (nesting deeper than two operators, function calls, user functions, try/can), numbers other than small integers (quotients without finite binary expansion are not compared), unknown and null values, marks, for-expressions with grouping, object-for, non-ASCII text, equality across collection types; the reference semantics are transcribed from the HCL native syntax specification in the harness",
+        "min_completed": 3,
+    },
     "C20": {
         "groups": [
             {"pkg": "Havoc/pkg/profile/yaotl/hclwrite", "with": ["Havoc/pkg/profile/yaotl/hclsyntax"], "entries": ["H_c20_short"], "shards": 4, "flags": ["-tags", "nohint", "-init", "Havoc/pkg/profile/yaotl,golang.org/x/text/unicode/norm,github.com/zclconf/go-cty/...,math/big,github.com/agext/levenshtein"]},
             {"pkg": "Havoc/pkg/profile/yaotl/hclwrite", "with": ["Havoc/pkg/profile/yaotl/hclsyntax"], "entries": ["H_c20_edit"], "shards": 6, "flags": ["-tags", "nohint", "-init", "Havoc/pkg/profile/yaotl,golang.org/x/text/unicode/norm,github.com/zclconf/go-cty/...,math/big,github.com/agext/levenshtein"]},
             {"pkg": "Havoc/pkg/profile/yaotl/hclwrite", "with": ["Havoc/pkg/profile/yaotl/hclsyntax"], "entries": ["H_c20_mutate"], "shards": 12, "flags": ["-tags", "nohint", "-init", "Havoc/pkg/profile/yaotl,golang.org/x/text/unicode/norm,github.com/zclconf/go-cty/...,math/big,github.com/agext/levenshtein"]},
         ],
-        "bounds": "TODO",
-        "outside": "TODO",
+        "bounds": "short files: every byte string of length 0..2 (thorough 0..3) that is a syntactically valid file; mutated files: every single-byte mutation (any position, any byte value) of 3 well-formed sources of 55..75 bytes (three comment styles, labelled and nested blocks, lists, objects, templates with interpolation and if-directives, plain and indented heredocs, conditionals, splats, for-expressions, tabs and odd spacing) that is still a valid file: serialising the loaded tokens reproduces the input byte for byte (a tab between tokens comes back as a space), Format changes nothing but spaces and tabs, Format is idempotent, the formatted file is still valid. Programmatic edits: one edit out of {set an existing attribute, set a new attribute, remove an attribute, remove an unknown attribute, append a block with a label, remove a block} with an arbitrary 7-bit string of 0..2 (thorough 0..3) characters as value or label, on a file with a free-standing comment, a line comment, three attributes and a labelled block: the output re-parses, shows exactly that change, keeps the values of untouched items and both comments.",
+        "outside": "files longer than the listed sources and multi-byte mutations; sequences of more than one edit; non-ASCII values in edits; 'the formatted file decodes to the same values' beyond staying valid (gohcl/reflection); gohcl.EncodeIntoBody (reflection); grapheme segmentation is the deterministic one-rune-per-cluster model (combining marks outside); did-you-mean hints stubbed",
         "min_completed": 3,
     },
     "C14": {
@@ -234,14 +244,16 @@ LEVELS = {
             "note": "Trusted: go/ssa, gosx, z3 (QF_UFBV), the reference decoder transcribed from Command.c/TransportSmb.c."},
     "C04": {"text": "Bounded symbolic execution of GetQueuedJobs/AddJobToQueue/UploadMemFileInChunks against a FIFO reference; sizes are symbolic so the 30 MB boundary and chunk boundaries are decided by the solver, not sampled.",
             "note": "Sequential histories only; the concurrent part of the property is not covered in this revision."},
+    "C18": {"text": "Partial: bounded symbolic execution of the real scanner, parser and evaluator (hclsyntax expression*.go with the cty operator and conversion functions) on expression and template sources whose operator, selector and literal bytes are symbolic; the value (or the presence of an error diagnostic) is compared with reference semantics transcribed from the language specification; the solver decides the comparison for every byte value in the bound.",
+            "note": "Shapes are fixed (two binary operators over three operands; one selector; seven template forms); operands are concrete small numbers/booleans because cty numbers are big.Float; see bounds for what is outside."},
+    "C20": {"text": "Bounded symbolic execution of the real hclwrite code (ParseConfig, token building and serialisation, Format, Body.SetAttributeValue/RemoveAttribute/AppendNewBlock/RemoveBlock, TokensForValue with its escaping) on top of the real scanner and parser: the input text (or the edit's value) carries symbolic bytes, the round-trip, formatter and edit statements of C20 are assertions decided for every value in the bound, and the output is re-parsed by the real hclsyntax parser inside the same run.",
+            "note": "Partial: single-byte mutations of a fixed set of sources plus all short strings; one edit per run; decoding of the formatted file is outside (reflection)."},
     "C03": {"text": "Bounded symbolic execution of pkg/common/parser and the registration path against a reference encoder mirroring Package.c; all byte values for every buffer length in the bound, so every residue of trailing bytes is covered.",
             "note": "Trusted: go/ssa, gosx, z3, the hand-written big-endian reference in the harness. Console text formatting is outside."},
 }
 
 NOT_APPLICABLE = {
-    "C18": "expression evaluation is cty/big.Float arithmetic and reflection-built function tables over unbounded expression trees; not encodable as QF_BV within reach, and a second evaluator compared on enumerated programs would not be a solver-decided check (DESIGN.md §C18)",
     "C19": "relates two reflection/cty based decoder stacks across two syntaxes; no leaf kernel carries the property (DESIGN.md §C19)",
-    "C20": "byte-exact round trip / formatter idempotence over source texts through the 5k-line generated lexer; path-based symbolic execution reaches only ~3 input bytes there and a token-level harness would quantify over token sequences no source produces (DESIGN.md §C20)",
 }
 for _p in ["C02","C04","C05","C06","C07","C08","C09","C10","C11","C12","C13","C14","C15","C16","C17"]:
     if _p not in CHECKS:
